@@ -1,3 +1,4 @@
+import Sparrow.Proofs.ReceiverLegComposed
 import Sparrow.Proofs.SourceLegClosed
 import Sparrow.Proofs.MonoGlueEquiv
 import Sparrow.Proofs.GlueEquiv
@@ -204,3 +205,29 @@ theorem patch2receiverEnergy_closed (thr : ℝ) (P : Nat) (rec : Nat → ℝ) (p
   Sparrow.patch2receiverEnergy_closed thr P rec pp vis s0 s1 s2 s3 i hi
 
 end Sparrow.Props.C11.Closed
+
+namespace Sparrow.Props.C11.Composed
+open Sparrow Sparrow.Generated.LegKernels Sparrow.Generated.PointFactor
+
+/-- **a patch hidden from the receiver, or seen from behind, contributes a factor of exactly zero** -/
+theorem patch2receiver_composed_hidden_zero (thr eta : ℝ) (P nvp : Nat) (rec : Nat → ℝ) (pc : Nat → Nat → ℝ)
+    (pp : Nat → Nat → Nat → ℝ) (wp : Nat → Nat → Nat → ℝ) (nvw : Nat) (wn : Nat → Nat → ℝ) (nS : Nat)
+    (s0 s1 s2 s3 : Nat) (i : Nat) (hi : i < P)
+    (hv : visibleThroughAll eta (Vec3.ofFn rec) (Vec3.ofFn (fun q => pc i q)) nS
+        (fun s => ptsOf (fun k q => wp s k q)) nvw (fun s => Vec3.ofFn (fun q => wn s q)) = false) :
+    patch2receiverEnergyUniversal (fun x pts => ptSolutionReceiver thr x pts nvp) s0 rec P s1 s2 pp s3
+        (srcVisT thr eta rec pc wp nvw wn nS) i = 0 :=
+  Sparrow.patch2receiver_composed_hidden_zero thr eta P nvp rec pc pp wp nvw wn nS s0 s1 s2 s3 i hi hv
+
+/-- **a visible patch contributes the model's receiver factor `ptReceiver`** (solid angle seen from the receiver / (π · patch area)) -/
+theorem patch2receiver_composed_visible (thr eta : ℝ) (P nvp : Nat) (rec : Nat → ℝ) (pc : Nat → Nat → ℝ)
+    (pp : Nat → Nat → Nat → ℝ) (wp : Nat → Nat → Nat → ℝ) (nvw : Nat) (wn : Nat → Nat → ℝ) (nS : Nat)
+    (s0 s1 s2 s3 : Nat) (i : Nat) (hi : i < P)
+    (hv : visibleThroughAll eta (Vec3.ofFn rec) (Vec3.ofFn (fun q => pc i q)) nS
+        (fun s => ptsOf (fun k q => wp s k q)) nvw (fun s => Vec3.ofFn (fun q => wn s q)) = true) :
+    patch2receiverEnergyUniversal (fun x pts => ptSolutionReceiver thr x pts nvp) s0 rec P s1 s2 pp s3
+        (srcVisT thr eta rec pc wp nvw wn nS) i =
+      ptReceiver thr (Vec3.ofFn rec) (ptsOf (fun v q => pp i v q)) nvp :=
+  Sparrow.patch2receiver_composed_visible thr eta P nvp rec pc pp wp nvw wn nS s0 s1 s2 s3 i hi hv
+
+end Sparrow.Props.C11.Composed
